@@ -775,7 +775,8 @@ def u_mujoco(ctx, name):
     dt = float(np.asarray(base.dt))
     spec1 = _random_spec(ctx.rng, base, int(ctx.rng.integers(2, 5)))
     if ctx.quick:
-        specs = [spec1] + ([None] if name == "InvertedPendulum" else [])
+        # the plain TimeLimit stack guarantees truncation-only endings whatever the random stack contains
+        specs = [spec1, ["TimeLimit"]] + ([None] if name == "InvertedPendulum" else [])
     else:
         specs = [None, spec1, ["TimeLimit"]]
     heavy = name in ("Humanoid", "HumanoidStandup", "Ant")
@@ -783,7 +784,7 @@ def u_mujoco(ctx, name):
                  dt=dt, resets=64, family="mujoco")
     ctx.require("steps_judged", ctx.n(80, 600))
     ctx.require("boundary_steps_judged", ctx.n(8, 60))
-    ctx.require("truncation_only_endings", 5)
+    ctx.require("truncation_only_endings", 3)
     ctx.require("resets_judged", 64)
     ctx.require("freshness_sets_judged", 1)
     ctx.require("key_pair_sets_judged", 1)
